@@ -518,7 +518,7 @@ Step(ev) ==
                IN IF ~shapeOK THEN R(Mutated(s), {})      \* malformed basis: C07's business
                   ELSE R(Mutated(s),
                     (IF optHere /\ ~(ev.rval = 0 /\ ev.result = 1)
-                     THEN {V(ev, {"C12"}, "the basis returned with OPTIMAL is not confirmed by " \o c \o " (rval " \o ToString(ev.rval) \o ", result " \o ToString(ev.result) \o ")")} ELSE {})
+                     THEN {V(ev, IF "props" \in DOMAIN B.opt THEN B.opt.props ELSE {"C12"}, "the basis returned with OPTIMAL is not confirmed by " \o c \o " (rval " \o ToString(ev.rval) \o ", result " \o ToString(ev.result) \o ")")} ELSE {})
                     \cup (IF optHere /\ c # "basis_optimalstatus" /\ ev.rval = 0 /\ ev.result = 1 /\ B.opt.val # "?"
                              /\ ev.dobjval # (IF L.max THEN RNeg(B.opt.val) ELSE B.opt.val) /\ ~(pre /\ ev.dobjval = B.opt.val)
                      THEN {V(ev, {"C12"}, "dual bound of the optimal basis differs from the optimal value")} ELSE {})
@@ -643,6 +643,13 @@ Next ==
                      \cup (IF "exit2" \in DOMAIN ev /\ ev.exit = 0 /\ code = 1 /\ ~(ev.exit2 = 0 /\ ev.status2 = "OPTIMAL" /\ ev.val2 = ev.val)
                            THEN {V(ev, {"C19"}, "a basis written with -b is not accepted as optimal when read back with -B (exit " \o ToString(ev.exit2) \o ", " \o ev.status2 \o ")")} ELSE {})
                 /\ UNCHANGED <<st, slot, ans, glob>>
+          ELSE IF ev.call = "claim_optimal" THEN
+             \* the basis in slot b was announced as optimal for the problem of handle h by someone else (esolver -b): the next exact verdict must confirm it
+             LET s0 == st[ev.h] IN
+             /\ slot' = IF IsNone(slot[ev.b]) \/ ~s0.live \/ ~s0.sync THEN slot
+                        ELSE [slot EXCEPT ![ev.b].opt = [c |-> Content(s0.lp), val |-> ev.val, props |-> SetOfSeq(ev.props)]]
+             /\ viol' = viol \cup (IF IsNone(slot[ev.b]) THEN {V(ev, SetOfSeq(ev.props), "the basis file announced as optimal cannot be read back against its problem")} ELSE {})
+             /\ UNCHANGED <<st, ans, glob>>
           ELSE IF ev.call = "esolver_bad" THEN
              \* a file outside the generated language: esolver must agree with the library's reader (the read_prob just before on handle h):
              \* rejected by the reader -> non-zero exit, no signal;  accepted (with warnings) -> a normal run, exit 0
